@@ -114,7 +114,7 @@ def selection(chk, dprog, cfg):
         if owner.startswith(cd.D + "attr::"):
             continue
         n += 1
-        ok, why = cd.is_skip_filter(dprog, consumer)
+        ok, why = cd.is_skip_filter(dprog, consumer, body=b, site=ct)
         key = "skip-filter-missing:%s" % owner.split("::")[2] if not ok and "collect_types_to_bind" in owner else "iteration:%s:%s" % (owner, elem.split("::")[-1])
         chk.expect(ok, "R13.2", key, b.where(bb), "%s over %s: %s" % (path_str(ct)[:60], elem.split("::")[-1], why), cfg)
     chk.floor("R13.2", n, 4, "member iteration sites counted on today's tree: 4")
